@@ -22,6 +22,7 @@ FOCUS = {
     9: """  * This round, look especially at: (a) the parts of the PUBLIC API that are used less often and their interplay with the common ones (Client.send_signal / send_message_to_module / forward_message, discard_messages, wait_for_acknowledgement, read_message(ack=True), the context managers, Client.connect called repeatedly or with unusual server strings; DataCollection pause / resume / restart / update_metadata / rm_data_set / several recordings with one object; MessageManager constructed with timecode=True, debug=True, send_msg_timing=False, other addresses); (b) ALIASING and COPYING: objects handed back to the caller that share memory with internal buffers (from_buffer vs from_buffer_copy, memoryviews, slices of ctypes arrays, struct / struct-array accessors, default values shared between instances), and anything that is modified after it was queued or stored; (c) slices and indices with unusual but legal shapes (negative, stepped, empty, out-of-range that Python clamps), strings with embedded NUL or of exactly the maximum length, zero-sized arrays and messages; (d) numeric conversions between the wire format and Python (signed / unsigned, 16 / 32 / 64 bit, float32 rounding, bool); (e) behaviour after the object was used for something else before (a Client that was connected to another manager, a DataCollection that recorded before, a message object that is sent twice or modified between two sends).""",
     10: """  * This round, think like someone who wants to slip a regression past a very thorough randomized test harness that drives the real code under a simulated network, a simulated clock and a controlled thread scheduler, and that compares the observed behaviour with a small reference model of the property. Such a harness is strong on the common protocol paths and weak wherever: (a) the bug needs a particular VALUE among very many (one specific id, size, count, time stamp or byte pattern - e.g. a message type equal to some constant, a payload whose first bytes look like something else, a count that is a multiple of 256 or 65536, a module id equal to a host id); (b) the bug needs a LONG history (thousands of messages on one connection, hundreds of reconnects, many reporting intervals, a counter that overflows, a table that grows and is never pruned, a cache that fills up); (c) the bug needs three or more independent conditions at the same time; (d) the wrong behaviour is only visible much LATER than its cause (state corrupted now, symptom after the next reconnect / restart / interval); (e) the behaviour is only wrong for ONE of several equivalent-looking variants (plain vs time-code header, CONNECT vs CONNECT_V2, logger vs ordinary module, dynamic vs fixed id, first vs later sub-message, json vs raw vs quicklogger).""",
     11: """  * This round again: think like someone who wants to slip a regression past a very thorough randomized test harness that drives the real code under a simulated network, a simulated clock and a controlled thread scheduler, compares the observed behaviour with a small reference model of the property, and has already been extended after ten rounds of seeded bugs (see the list above: it now knows about long histories, boundary values, odd header fields, early subscribers, short reads and writes, copies and aliases, several objects per process). Look for what is STILL likely to be missing: (a) interactions between TWO of the listed mechanisms that were each tried alone; (b) behaviour that depends on the ORDER in which two different clients' requests are served within one select round, or on a request arriving exactly while the manager is in the middle of handling another client's departure; (c) the manager's periodic work (TIMING_MESSAGE, MESSAGE_TRAFFIC, ACTIVE_CLIENTS / CLIENT_INFO sweeps) coinciding with a client operation; (d) public options and code paths nobody has touched yet in the list above; (e) error handling of the package's own exceptions (which exception type is raised, what state the object is left in, whether the next call works).""",
+    12: """  * This round again: think like someone who wants to slip a regression past a very thorough randomized test harness that drives the real code under a simulated network, a simulated clock and a controlled thread scheduler, compares the observed behaviour with a small reference model of the property, and has already been extended after eleven rounds of seeded bugs (see the list above). Look for what is STILL likely to be missing: (a) the manager's RECENTLY REWRITTEN handling of failed writes (MessageManager.write_failed / unregister_module / remove_module / _failed_writes queue / _handling_failed_writes flag in src/pyrtma/manager.py): the order in which queued failures are announced, what header / module / time each queued entry carries when it is finally handled, what happens when the same module fails twice, when a failure is found while the queue is being drained, when an exception escapes the drain loop, when the failing module is the sender of the message or a logger; (b) state that must be reset between TWO uses of the same object and is only wrong the second time; (c) behaviour that differs only when two things happen in the SAME select round or at the SAME clock value; (d) public options and code paths nobody has touched yet in the list above; (e) a change in a helper shared by several paths that is wrong only for the least used of them.""",
 }
 
 
